@@ -126,6 +126,13 @@ def value_of(shape, name=None, df=None):
                 col = di.DataFrameColumn(np.arange(n))
                 return col[:, None] if name == "x" else col.reshape(1, n)
         return np.zeros((2, 3))
+    if shape == 1 and name in ("z", "w", "_q"):
+        # a length-one OBJECT column whose one element is itself a list (what `Vector.re.split` / `findall` produce): one value,
+        # repeated in every row like any other length-one value
+        import dataiter as di
+        a = np.empty(1, dtype=object)
+        a[0] = ["p", "q"]
+        return di.DataFrameColumn(a)
     vals = list(range(shape))
     # the same values in the array types a caller may hold them in: a typed length-one column (taken from a one-row frame,
     # or a ready DataFrameColumn / Vector) is broadcast like a one-element list is
